@@ -75,6 +75,26 @@ pub fn check(ctx: &mut Ctx, b: &[u8], what: &str) {
     }
 }
 
+/// decision, accessors and round trip against the reference only (for the very large enumerations)
+fn check_light(ctx: &mut Ctx, b: &[u8], what: &str) {
+    ctx.eval();
+    let r = pwb_ref(b);
+    match guard(|| PwbV2Packet::try_from(b).map(|p| r.as_ref().map(|r| pwb_accessors_match(&p, r)))) {
+        Err(p) => ctx.panic_violation("PwbV2Packet::try_from", &p, json!({"bytes": hex(b), "what": what})),
+        Ok(Ok(None)) => ctx.violation("ill-formed PWB payload accepted", format!("{} len={}", what, b.len()), json!({"bytes": hex(b)})),
+        Ok(Err(e)) if r.is_some() => ctx.violation("well-formed PWB payload rejected", format!("{} len={} ({})", what, b.len(), e), json!({"bytes": hex(b)})),
+        Ok(Ok(Some(m))) => {
+            if let Err(which) = m {
+                ctx.violation(&format!("accessor {} differs from payload", which.split(' ').next().unwrap_or("")), format!("{}: {}", what, which), json!({"bytes": hex(b)}));
+            } else if r.unwrap().encode() != b {
+                ctx.violation("re-encoding does not reproduce the payload", what.to_string(), json!({"bytes": hex(b)}));
+            }
+            ctx.count("accepted by both (sweeps)");
+        }
+        Ok(Err(_)) => {}
+    }
+}
+
 pub fn samples(rng: &mut Rng, n: u16, kind: u64) -> Vec<i16> {
     (0..n)
         .map(|i| match kind % 4 {
@@ -235,6 +255,123 @@ fn run(ctx: &mut Ctx) {
         let mut p = seed.clone();
         p.sent_mask &= !(1 << 4);
         check(ctx, &p.encode(), "mask misses a bit");
+    });
+    // ---- whole blocks too many / too few, at every place: the body length is then still "a multiple of the block size
+    // plus the marker", so only the exact length equation catches it
+    ctx.cases("block-count", 48, |ctx, i, rng| {
+        let rs = [0u16, 1, 2, 3, 4, 7, 8, 511][(i % 8) as usize];
+        let nch = [1usize, 2, 3, 5, 40, 79][((i / 8) % 6) as usize];
+        let mut ids: Vec<u16> = (1..=79).collect();
+        rng.shuffle(&mut ids);
+        let mut ids = ids[..nch].to_vec();
+        ids.sort();
+        let seed = Pwb::new(['A', 'B', 'C', 'D'][(i % 4) as usize], *rng.pick(&macs), rs, ids.iter().map(|c| (*c, samples(rng, rs, i))).collect());
+        let sb = seed.encode();
+        check(ctx, &sb, "seed");
+        let per = 4 + 2 * rs as usize + if rs % 2 == 1 { 2 } else { 0 };
+        let unused: Vec<u16> = (1..=79).filter(|c| !ids.contains(c)).collect();
+        let block = |idx: u16, smp: &[i16]| -> Vec<u8> {
+            let mut v = vec![idx as u8, 0];
+            v.extend(rs.to_le_bytes());
+            for x in smp {
+                v.extend(x.to_le_bytes());
+            }
+            if rs % 2 == 1 {
+                v.extend([0, 0]);
+            }
+            v
+        };
+        for count in [1usize, 2, 3, 16, 255, 256] {
+            if count * per > 70_000 {
+                continue;
+            }
+            for place in 0..=nch.min(3) {
+                let at = 52 + per * [0, nch, nch / 2, 1][place].min(nch);
+                for kind in 0..5 {
+                    let extra: Vec<u8> = match kind {
+                        0 => (0..count).flat_map(|_| sb[52 + per * (nch - 1)..52 + per * nch].to_vec()).collect(), // copies of the last block
+                        1 if !unused.is_empty() => (0..count).flat_map(|k| block(unused[k % unused.len()], &samples(rng, rs, 2))).collect(), // well-formed blocks of channels not in the mask
+                        2 => vec![0u8; count * per],
+                        3 => vec![0xCCu8; count * per],
+                        4 => (0..count).flat_map(|k| block(ids[k % nch], &samples(rng, rs, 3))).collect(), // well-formed blocks of channels in the mask, again
+                        _ => continue,
+                    };
+                    let mut b = sb.clone();
+                    b.splice(at..at, extra);
+                    check_light(ctx, &b, "whole blocks too many");
+                    ctx.count("inputs with whole blocks too many / too few");
+                }
+            }
+        }
+        // blocks missing (mask unchanged), from the front / middle / end
+        for drop in 1..=nch.min(3) {
+            for at in [0usize, (nch - drop) / 2, nch - drop] {
+                let mut b = sb.clone();
+                b.drain(52 + per * at..52 + per * (at + drop));
+                check_light(ctx, &b, "whole blocks missing");
+                ctx.count("inputs with whole blocks too many / too few");
+            }
+        }
+        // mask bits added / removed without touching the blocks
+        for k in 0..79u32 {
+            let mut p = seed.clone();
+            p.sent_mask ^= 1 << k;
+            check_light(ctx, &p.encode(), "one mask bit toggled, blocks unchanged");
+        }
+    });
+    // ---- every pair of numeric header fields over boundary values: acceptance does not depend on them, alone or in relation
+    ctx.cases("field-pairs", 36, |ctx, i, rng| {
+        let rs = [0u16, 3, 4][(i % 3) as usize];
+        let seed = Pwb::new('D', *rng.pick(&macs), rs, vec![(5, samples(rng, rs, 0)), (16, samples(rng, rs, 1)), (70, samples(rng, rs, 2))]);
+        let fields = 9usize;
+        let set = |p: &mut Pwb, f: usize, sel: usize, rng: &mut Rng| {
+            let pick = |max: u64, rng: &mut Rng| -> u64 { [0, 1, 2, max / 2, max - 1, max, rng.below(max) + 0, max / 2 + 1][sel] };
+            match f {
+                0 => p.trigger_delay = pick(0xFFFF, rng) as u16,
+                1 => p.trigger_timestamp = pick(0xFFFF_FFFF_FFFF, rng),
+                2 => p.last_sca_cell = pick(511, rng) as u16,
+                3 => p.event_counter = pick(0xFFFF_FFFF, rng) as u32,
+                4 => p.fifo_max_depth = pick(0xFFFF, rng) as u16,
+                5 => p.wdepth = pick(0xFF, rng) as u8,
+                6 => p.rdepth = pick(0xFF, rng) as u8,
+                7 => p.threshold_mask = [0u128, 1, 2, 1 << 39, (1 << 79) - 2, (1 << 79) - 1, rng.next() as u128, 1 << 78][sel],
+                _ => p.trigger_source = [0u8, 1, 3, 0, 1, 3, 0, 1][sel],
+            }
+        };
+        let mut pair = 0;
+        for f1 in 0..fields {
+            for f2 in f1 + 1..fields {
+                pair += 1;
+                if pair % 36 != i as usize % 36 && !(pair == 36 && i == 0) {
+                    continue;
+                }
+                for s1 in 0..8 {
+                    for s2 in 0..8 {
+                        let mut p = seed.clone();
+                        set(&mut p, f1, s1, rng);
+                        set(&mut p, f2, s2, rng);
+                        check(ctx, &p.encode(), "two header fields at boundary values");
+                        // the same two fields with equal / adjacent values (relations between fields)
+                        ctx.count("header field pairs at boundary values");
+                    }
+                }
+            }
+        }
+        // delay against timestamp, explicitly: smaller, equal, larger
+        for (d, t) in [(0u16, 0u64), (1, 0), (0, 1), (500, 499), (500, 500), (500, 501), (0xFFFF, 0), (0xFFFF, 0xFFFE), (0xFFFF, 0xFFFF), (0xFFFF, 0x1_0000), (1, 0xFFFF_FFFF_FFFF)] {
+            let mut p = seed.clone();
+            p.trigger_delay = d;
+            p.trigger_timestamp = t;
+            check(ctx, &p.encode(), "trigger delay against trigger timestamp");
+        }
+    });
+    ctx.require("header field pairs at boundary values", 2000);
+    // ---- one header field at a constant from the library's sources and one more header bit / byte changed
+    let dict = super::source_dictionary("detector/src");
+    ctx.cases("dictionary-pairs", 52, |ctx, off, rng| {
+        let seed = Pwb::new('B', *rng.pick(&macs), 3, vec![(5, samples(rng, 3, 0)), (70, samples(rng, 3, 2))]).encode();
+        let n = super::dict_pairs(&seed, off as usize, 0..52, &dict, |_| {}, |b| check_light(ctx, b, "header field at a source constant + one more change"));
+        ctx.count_n("inputs with a field at a source constant", n);
     });
     let n = ctx.tier.pick(150_000, 4_000_000);
     ctx.cases("random", n, |ctx, i, rng| {
